@@ -19,7 +19,10 @@
 //!       (a) raw client: `Transport::open_bi`, `BiPayload::V1 { SyncStart, cluster_id }` (or cut before the
 //!       field) + `Clock`; prints the kind of the first frame the real `serve_sync` answers, then requests a
 //!       version the server holds and reports whether a changeset frame followed;
-//!       (b) real client: `parallel_sync` of a real agent of cluster <client> against the same server.
+//!       (b) real client: `parallel_sync` of a real agent of cluster <client> against the same server:
+//!       `synced` (Ok and the server's fresh row becomes visible at the client) | `rejected` (an error and no
+//!       data: the `Rejection(DifferentCluster)` itself or, when the client was still writing its clock while
+//!       the server had already answered and dropped the stream, the resulting write error).
 //!   candidates <mine> <members>
 //!       the real `Members` of the lab agent (cluster set with `agent.set_cluster_id`) are filled with
 //!       `add_member`/`add_rtt`; the real `handle_sync` (hook) is run; the dummy listeners record which
@@ -97,6 +100,7 @@ const MAX_NODES: usize = 24;
 // ---------------------------------------------------------------- world
 
 struct Node {
+    #[allow(dead_code)]
     cluster: u16,
     agent: Agent,
     bookie: Bookie,
@@ -606,7 +610,15 @@ async fn op_sync(w: &mut World, client: Option<u16>, server_c: u16) -> Result<Ou
                     if same {
                         return Err(OpErr::Inconclusive(format!("parallel_sync failed between equal clusters: {e}")));
                     }
-                    format!("err:{}", short(&e.to_string()))
+                    // the server has already answered and dropped the stream: depending on the timing the real
+                    // client fails while still writing its clock ("sending stopped by peer") instead of
+                    // reading the rejection.  Either way the session ended with an error and without data.
+                    o.tags.push(format!("psync-error-instead-of-rejection:{}", short(&e.to_string())));
+                    let after = digest(&cl).await?;
+                    if row_visible(&cl, row).await? || after != before {
+                        o.fails.push(format!("client of cluster {c} changed its stores in a failed session with a cluster-{server_c} server: {before} -> {after}"));
+                    }
+                    "rejected".to_string()
                 }
                 Ok(_n) => {
                     let seen = wait_until(WAIT, || row_visible(&cl, row)).await?;
@@ -718,9 +730,9 @@ async fn start_lab(dir: PathBuf) -> Result<Lab, String> {
         let _ = lab.node.agent.tx_foca().send(FocaInput::ClusterSize(30u32.try_into().unwrap())).await;
         let toks: Vec<Tok> = (0..7).map(|i| Tok { id: Id::N(i), cluster: 0, ring: None }).collect();
         match targets_run(&lab, 0, false, &toks, Duration::from_secs(8)).await {
-            Ok((_, sent)) if sent.len() == 7 => return Ok(lab),
+            Ok((_, sent)) if sent.len() == 8 => return Ok(lab), // 7 members + the sentinel
             Ok(_) | Err(_) if attempt < 2 => continue,
-            Ok((_, sent)) => return Err(format!("calibration: a relayed broadcast reached only {} of 7 same-cluster members", sent.len())),
+            Ok((_, sent)) => return Err(format!("calibration: a relayed broadcast reached only {} of 8 same-cluster members", sent.len())),
             Err(e) => return Err(format!("calibration: {e}")),
         }
     }
@@ -899,6 +911,10 @@ async fn targets_run(lab: &Lab, mine: u16, local: bool, toks: &[Tok], deadline: 
 
     let mut expect = expected_peers(mine, toks);
     expect.insert(SENTINEL_L);
+    if local && toks.iter().any(|t| t.id == Id::Me && t.cluster == mine && t.ring == Some(0)) {
+        // `Members::ring0` has no self-exclusion: only waited for, not required by the oracle
+        expect.insert(SELF_L);
+    }
     let got = |lab: &Lab| -> (BTreeSet<usize>, Vec<u16>) {
         let mut s = BTreeSet::new();
         let mut cl = vec![];
